@@ -54,6 +54,28 @@ def exactness(rep, mir, L, n):
         if verdict == 'violated':
             md = {d.name(): str(model[d]) for d in model.decls() if d.arity() == 0}
             rep.violated('C08.1A n=%d %s' % (n, nm), 'diag.estimator', 'running mean/variance estimator wrong on a Gaussian window (%s): %s' % (nm, md), model=md)
+    # the background pair saw the same window: it must hold the same statistics (it becomes the estimator in use at the next switch)
+    bx, bg_ = rv('exp_variance_draw_bg', 'variance').items[0].v, rv('exp_variance_grad_bg', 'variance').items[0].v
+    bmx, bmg = rv('exp_variance_draw_bg', 'mean').items[0].v, rv('exp_variance_grad_bg', 'mean').items[0].v
+    verdict, model = rep.check('C08.1A background estimators hold the same draw/gradient statistics as the foreground ones after %d common draws' % n,
+                               pre + [z3.Or(bx != vx, bg_ != vg, bmx != mx, bmg != mg, rv('exp_variance_grad_bg', 'count') != n)], timeout_ms=120000)
+    if verdict == 'violated':
+        md = {d.name(): str(model[d]) for d in model.decls() if d.arity() == 0}
+        rep.violated('C08.1A n=%d background estimators' % n, 'diag.estimator.background', 'background running estimators differ from the foreground ones although both saw the same draws and gradients: %s' % md, model=md)
+    if n == 3:
+        # window switch on the real strategy, then the relations again on the estimator now in use
+        sw = mir.method('Strategy', 'MassMatrixAdaptStrategy', 'switch', file=F)
+        o2 = vm.run(sw, [Ref(sc), math], m.clone())
+        if len(o2) != 1 or o2[0][1] != 'ret': rep.violated('C08.1A switch', 'diag.exact.panic', 'switch panics or forks')
+        else:
+            st2 = o2[0][0].mem[sc]; rv2 = lambda f, fld: L.get('RunningVariance', L.get('Strategy', st2, f, file=F), fld)
+            vx2, vg2 = rv2('exp_variance_draw', 'variance').items[0].v, rv2('exp_variance_grad', 'variance').items[0].v
+            mx2, mg2 = rv2('exp_variance_draw', 'mean').items[0].v, rv2('exp_variance_grad', 'mean').items[0].v
+            verdict, model = rep.check('C08.1A after a window switch the estimator in use still satisfies var_grad * s^4 = var_draw and mean_grad * s^2 = -(mean_draw - m) (n=3)',
+                                       pre + [z3.Or(vg2 * s * s * s * s != vx2, mg2 * s * s != -(mx2 - mean), rv2('exp_variance_draw', 'count') != n, rv2('exp_variance_grad', 'count') != n)], timeout_ms=120000)
+            if verdict == 'violated':
+                md = {d.name(): str(model[d]) for d in model.decls() if d.arity() == 0}
+                rep.violated('C08.1A after switch', 'diag.estimator.after_switch', 'after a window switch the estimators in use do not describe the Gaussian window: %s' % md, model=md)
     rep.absorb_vm(vm)
     if n == 3: rep.sample({'query': 'C08.1A n=3', 'var_draw term': str(z3.simplify(vx))[:300]})
     if n > 3: return
